@@ -158,7 +158,8 @@ def main():
     run.add_tlc(resh, "TdReject_ltahalf: LTA over 2.5 chunks (Refines, Conjunction, Monotone, PerWindow)")
     cases_h = [c for c in resh.cases if isinstance(c, dict) and "pat" in c]
     cases_h = [cases_h[i] for i in sorted(rng.choice(len(cases_h), min(len(cases_h), 6000 if quick else 60000), replace=False).tolist())]
-    process_cases(cases_h, pats, "ltahalf", LTA=2.5 * STA)
+    # (TdReject_ltahalf.cfg uses the four patterns of Pats4 in both tiers)
+    process_cases(cases_h, [PATS[0], PATS[1], PATS[2], PATS[4]], "ltahalf", LTA=2.5 * STA)
     # ---- windows of different durations in one call (PerWindow: the decision on a window depends on that window only) ----
     #      a long window = two patterns back to back; every window's joint verdict must equal its verdict alone
     mixed = 0
